@@ -88,6 +88,10 @@ class _SymProduct:
         self.n = seq.n
         self.desc = f"product({seq.desc}, {self.lst})"
 
+    def pyvc_for(self, interp, node, env):
+        # wherever the scan loop lives (to_function itself or a helper it calls)
+        return readiness_rule(interp, node, self, env)
+
 
 def declared_groups(cls_name):
     return {g for g, *_ in DECLARED[cls_name]}
